@@ -176,6 +176,18 @@ func c04IterItems() []c04IterItem {
 	return []c04IterItem{
 		mk("escaped-through-elems", "  k = 0\n", "  for g <- elems([() -> x]) k = g\n", "  for g <- elems([c]) k = g\n", "  x = 5\n  k\n", "h = def() ; h()", "i:5"),
 		mk("escaped-through-own-generator", "  k = 0\n", "  for g <- twice(() -> x) k = g\n", "  for g <- twice(c) k = g\n", "  x = 5\n  k\n", "h = def() ; h()", "i:5"),
+		// names are resolved by the order of the text: a read that stands before the function's first assignment of the
+		// name is compiled as an outer read for good, although by the time it runs the activation has its own variable
+		// (both the lexical and the dynamic reading of the lookup rule give the documented answers below)
+		{"textorder-read-in-loop-after-own-assignment",
+			[]string{"x = 10", "def = () -> {\n  i = 0\n  y = 0\n  while i < 2 {\n    if i == 1 y = x\n    x = 5\n    i = i + 1\n  }\n  y\n}", "def()"},
+			[]string{"x = 10", "def = () -> {\n  x = 0\n  i = 0\n  y = 0\n  while i < 2 {\n    if i == 1 y = x\n    x = 5\n    i = i + 1\n  }\n  y\n}", "def()"}, "i:5"},
+		{"textorder-closure-written-before-the-assignment",
+			[]string{"x = 10", "def = () -> {\n  h = () -> x\n  x = 5\n  h()\n}", "def()"},
+			[]string{"x = 10", "def = () -> {\n  x = 0\n  h = () -> x\n  x = 5\n  h()\n}", "def()"}, "i:5"},
+		{"textorder-local-recursive-function",
+			[]string{"def = () -> {\n  k = (n) -> if n <= 0 0 else 1 + k(n - 1)\n  k(3)\n}", "def()"},
+			[]string{"def = () -> {\n  k = 0\n  k = (n) -> if n <= 0 0 else 1 + k(n - 1)\n  k(3)\n}", "def()"}, "i:3"},
 		mk("called-by-the-definer-after-an-update", "  r = 0\n", "  for g <- elems([() -> x]) {\n    x = 2\n    r = g()\n  }\n", "  for g <- elems([c]) {\n    x = 2\n    r = g()\n  }\n", "  r\n", "def()", "i:2"),
 	}
 }
@@ -216,6 +228,9 @@ func c04IterJudge(name string) (sig, detail string) {
 		if herr != "" {
 			return "harness:iter-closure", herr
 		}
+		if got != it.Want && strings.HasPrefix(it.Name, "textorder-") {
+			return "name-resolved-by-text-order", fmt.Sprintf("%s: program %q gives %s; the documented lookup order (own variable, else the enclosing function's, else the global) gives %s, and so does the same program with a dummy assignment of the name at the top of the function", it.Name, it.Inline[len(it.Inline)-2], got, it.Want)
+		}
 		if got != it.Want {
 			return "closure-in-iterator-expression-detached", fmt.Sprintf("%s: program %q gives %s; the documented answer, and what the same literal bound one statement before the loop gives, is %s", it.Name, it.Inline[1], got, it.Want)
 		}
@@ -228,7 +243,7 @@ func init() {
 	core.Register(&core.Check{
 		ID:    "C04",
 		Level: "exploration",
-		Rule: "scope skeletons = the full product of: a global of the same name exists or not x the definer has 0 / 1 / 2 / 3 / 199 other locals before x x x is not defined in the definer / a parameter / a local / a for variable x 11 inner function shapes (plain read, own local, shadowing parameter, shadowing assignment, a second nesting level with and without the documented explicit copy, a body that assigns the caller's names, one that assigns its parameter, reads of other names, reads inside a loop, a for variable of the same name) x the captured variable is left alone / updated / updated after stack growth (by pushes, by frames with locals, by one wide frame) / updated in a loop after the inner function was created x the inner function is called, passed down, passed through another function, returned, returned inside an array, returned inside a nested array x (for escaped functions) stack churn by deep recursion / an allocating loop / further calls of the definer; plus recursive definers at depth 3/50/200; plus three directed programs in which the inner function is written directly in the iterator expression of a for statement (escaping through elems, through a generator of the program, called by the definer after an update), each with the same literal bound one statement before the loop as a control. Every write stores a unique tag. " +
+		Rule: "scope skeletons = the full product of: a global of the same name exists or not x the definer has 0 / 1 / 2 / 3 / 199 other locals before x x x is not defined in the definer / a parameter / a local / a for variable x 11 inner function shapes (plain read, own local, shadowing parameter, shadowing assignment, a second nesting level with and without the documented explicit copy, a body that assigns the caller's names, one that assigns its parameter, reads of other names, reads inside a loop, a for variable of the same name) x the captured variable is left alone / updated / updated after stack growth (by pushes, by frames with locals, by one wide frame) / updated in a loop after the inner function was created x the inner function is called, passed down, passed through another function, returned, returned inside an array, returned inside a nested array x (for escaped functions) stack churn by deep recursion / an allocating loop / further calls of the definer; plus recursive definers at depth 3/50/200; plus three directed programs in which the inner function is written directly in the iterator expression of a for statement (escaping through elems, through a generator of the program, called by the definer after an update), each with the same literal bound one statement before the loop as a control; plus three directed programs in which a name is read before the text of the function assigns it but after the activation did (second loop iteration, closure written before the assignment, local recursive function), each with a dummy assignment at the top of the function as a control. Every write stores a unique tag. " +
 			"Oracle: every value read equals the reference model's by-name resolution (own, else one-level captured, else global); globals, the caller's variables and its argument are rendered before and after every call and must be unchanged; escaped functions must keep reading the tags their captured variables had when the definer returned. distinct = distinct program; non-trivial = programs inside the described domain in which the inner function ran",
 		Assumptions: []string{"reference model refsem (by-name scoping with one retained level)", "programs whose reads resolve differently under the lexical and the dynamic rule (D-use-before-def) are skipped and counted"},
 		Exec: func(payload string) (string, string) {
@@ -401,8 +416,9 @@ func c04Run(w *core.W) {
 			}
 		}
 	}
-	// function literals written in an iterator expression (directed; the failing ones are listed in known_findings.json)
-	w.Family("closures-in-iterator-expressions")
+	// function literals written in an iterator expression, and names read before the text assigns them (directed; the
+	// failing ones are listed in known_findings.json)
+	w.Family("closures-in-iterator-expressions-and-text-order")
 	for _, it := range c04IterItems() {
 		b, _ := json.Marshal(map[string]string{"iterclosure": it.Name})
 		if !w.Mine(string(b)) {
